@@ -1,4 +1,6 @@
 # C18 — the sFlow type filter removes exactly the listed sample types.
+import json
+import vf
 from props.c07 import P as C07
 
 
@@ -9,7 +11,41 @@ class P(C07):
     def rule(self):
         return ("the C07 datagram stream, each datagram decoded under one of the filter lists %s (unsorted lists included); "
                 "expected = the unfiltered expectation minus the samples of the listed types, everything else identical; filtered "
-                "samples occur before and after unfiltered ones" % (self.filters,))
+                "samples occur before and after unfiltered ones.  Plus: how the list the user writes becomes the list the decoder gets - "
+                "the REAL flagSet is run with the types given as one comma list, as repeated -sflow-type-filter flags and in the "
+                "configuration file; every type listed on the command line must be in the effective list and nothing else" % (self.filters,))
+
+    def extra(self, tier, rng, known):
+        """the filter list as the options code builds it (vflow/options.go arrUInt32Flags.Set + flagSet)"""
+        cases, want = [], []
+        lists = [[1], [2], [1, 2], [2, 1], [7, 1], [4, 2, 1], [4095], [1, 1001, 2]]
+        if tier != "quick":
+            lists += [[rng.randrange(1, 5000) for _ in range(rng.choice([2, 3, 5]))] for _ in range(40)]
+        for l in lists:
+            forms = [["-sflow-type-filter", ",".join(map(str, l))]]                          # one flag, comma separated
+            if len(l) > 1:
+                forms.append(sum((["-sflow-type-filter", str(x)] for x in l), []))            # one flag per type
+                forms.append(["-sflow-type-filter", ",".join(map(str, l[:1])), "-sflow-type-filter", ",".join(map(str, l[1:]))])
+            for args in forms:
+                cases.append({"cmd": "options", "env": {}, "file": None, "args": args}); want.append((sorted(l), "command line " + " ".join(args)))
+            cases.append({"cmd": "options", "env": {}, "file": "sflow-type-filter: [%s]\n" % ", ".join(map(str, l)), "args": []})
+            want.append((sorted(l), "configuration file sflow-type-filter: %s" % l))
+        cases.append({"cmd": "options", "env": {}, "file": None, "args": []}); want.append(([], "no filter given"))
+        res = vf.run_driver(cases)
+        viol = []
+        for c, (w, how), r in zip(cases, want, res):
+            if "error" in r:
+                viol.append({"cases": [json.dumps(c)], "verdict": "options driver failed: " + str(r["error"])[:200]}); break
+            got = r.get("SFlowTypeFilter")
+            try:
+                g = sorted(json.loads(got)) if got not in (None, "", "null") else []
+            except Exception:
+                g = None
+            if g != w:
+                viol.append({"cases": [json.dumps(c)], "verdict": "sample types listed in the sFlow type filter (%s) are %s, but the decoder is given %s: "
+                             "the types missing from it are not omitted from the output" % (how, w, got)})
+                break
+        return {"violations": viol, "coverage": {"option_forms": len(cases)}, "notes": ["filter-list construction: %d option forms through the real flagSet" % len(cases)]}
 
 
 PROP = P()
